@@ -255,3 +255,66 @@ func passesOrEarly(fn *ssa.Function, must *ssa.BasicBlock, fromGetter func(ssa.V
 	walk(fn.Blocks[0], false)
 	return bad == "", bad
 }
+
+// c17RawCode (R17.6): the only user text that reaches the generated source unescaped is the argument
+// list of a function token (documented: "must be valid Go code"). It is printed into the constructor
+// body, which exists in normal mode only, so text that does not parse makes the formatter reject the
+// normal output while the stub is accepted. The decision is the same in both modes only if the text is
+// parsed before generation: FactoryFunction.Create hands the emitted call to go/parser.ParseExpr and
+// returns an error when that fails.
+func c17RawCode(e *Env) {
+	r := e.R
+	key := tokenRel + ".FactoryFunction.Create#arguments-parsed-before-generation"
+	fn := e.P.Func(tokenRel, "FactoryFunction.Create")
+	if fn == nil {
+		r.Undecide("R17.6", key, "anchor not found")
+		return
+	}
+	ok, why := false, "no call of go/parser.ParseExpr on the emitted call text"
+	for _, uf := range unitFns(fn, 1) {
+		// the raw group
+		var raw []ssa.Value
+		allInstrs(uf, func(_ *ssa.Function, ins ssa.Instruction) {
+			if lk, isLk := ins.(*ssa.Lookup); isLk {
+				if k, isK := constString(lk.Index); isK && k == "params" {
+					raw = append(raw, lk)
+				}
+			}
+		})
+		for _, c := range callsIn(uf, false) {
+			name := callName(c.Common())
+			if name != "go/parser.ParseExpr" && name != "go/parser.ParseExprFrom" {
+				continue
+			}
+			tainted := false
+			for _, rv := range raw {
+				ts := taintFrom(uf, rv)
+				for _, a := range c.Common().Args {
+					if ts.has(a) {
+						tainted = true
+					}
+				}
+			}
+			if !tainted {
+				why = "go/parser.ParseExpr is not applied to text containing the token's argument list"
+				continue
+			}
+			errv := errOf(c)
+			if errv == nil {
+				why = "the parser's error is discarded"
+				continue
+			}
+			fb, has := failureEdgeBlock(uf, errv)
+			if !has {
+				why = "no branch on the parser's error"
+				continue
+			}
+			if pathReturnsError(fb) {
+				ok = true
+			} else {
+				why = "the failure path of the parser does not return an error"
+			}
+		}
+	}
+	r.Check(ok, "R17.6", key, "the argument list of a function token is parsed as Go before it is printed into the (normal-mode only) constructor body; a parse failure is a compile-step error in both modes ("+why+")", e.P.Pos(fn.Pos()))
+}
